@@ -36,14 +36,28 @@ func genSqlwScenario(r *Rng, names bool) sqlwScenario {
 	if r.Chance(4) {
 		ncols = 0
 	}
+	wide := !names && r.Intn(300) == 0
+	if wide {
+		// wide AND long: rows x columns beyond the bound-parameter limits of real drivers (32766, 65535)
+		ncols, n = Pick(r, []int{34, 40}), Pick(r, []int{1000, 1200})
+	}
 	df := dataframe.NewDataFrame()
 	pool := []string{"a", "b", "c", "d", "e"}
-	if names || r.Chance(25) {
+	if wide {
+		pool = nil
+		for j := 0; j < ncols; j++ {
+			pool = append(pool, "c"+itoa(100+j))
+		}
+	}
+	if (names || r.Chance(25)) && !wide {
 		pool = sqlNameAlpha
 	}
 	perm := r.Perm(len(pool))
 	for j := 0; j < ncols; j++ {
 		k := Pick(r, []colKind{kInt, kFloat, kStr, kBool, kTime, kWide, kMixed})
+		if wide {
+			k = kInt
+		}
 		d := r.Column(n, k)
 		if r.Chance(10) {
 			for i := range d {
@@ -73,6 +87,9 @@ func genSqlwScenario(r *Rng, names bool) sqlwScenario {
 	sc.opts.BatchSize = Pick(r, []int{0, 1, 2, 3, n, n + 1, n + 2, 1000, max(n-1, 1), 7})
 	if r.Chance(4) {
 		sc.opts.BatchSize = Pick(r, []int{-1, -1000, 1 << 62, math.MaxInt, math.MaxInt - 1})
+	}
+	if wide {
+		sc.opts.BatchSize = Pick(r, []int{0, 1000, n, 900})
 	}
 	if r.Chance(25) && ncols > 0 {
 		sc.opts.TypeMap = map[string]string{}
@@ -222,6 +239,18 @@ func genSqlw(r *Rng, id string, mode string) []string {
 	e := NewEnc()
 	emitSqlw(e, sc, -1, status, calls)
 	lines = append(lines, e.Line(id, "SQLW"))
+	if mode == "names" && r.Chance(30) {
+		// a statement failing must not change how the following statements are written (retries, fall-backs)
+		for k := 0; k < len(calls); k++ {
+			if calls[k].kind != "E" {
+				continue
+			}
+			st, cs := runSqlw(sc, k)
+			e := NewEnc()
+			emitSqlw(e, sc, k, st, cs)
+			lines = append(lines, e.Line(id+"f"+itoa(k), "SQLW"))
+		}
+	}
 	if mode == "fault" {
 		for k := 0; k < len(calls); k++ {
 			// the error VALUE of the failing call varies: plain, context-wrapping, bad connection, sql sentinels
